@@ -197,10 +197,8 @@ def call(fn, *args, **kwargs):
         return True, fn(*args, **kwargs)
     except HarnessError:
         raise
-    except (KeyboardInterrupt, SystemExit, MemoryError):
-        raise
-    except BaseException as exc:  # noqa: the library's failures are data for the oracles
-        return False, exc
+    except Exception as exc:  # noqa: the library's failures are data for the oracles
+        return False, exc   # BaseExceptions (SimCrash, StepBudgetExceeded, KeyboardInterrupt) propagate
 
 
 def exc_label(exc: BaseException) -> str:
